@@ -17,6 +17,9 @@ FaultInit == {Empty, [l \in {"pl.a"} |-> "s:b"]}
 FaultInitQ == {Empty}
 FaultLeafQ == {"pl.a"}
 FaultPrioOf == [o \in {"A", "B"} |-> IF o = "A" THEN {5} ELSE {7}]
+\* validity: constraint carrying leaves (must, mandatory under presence, length/pattern), bad values allowed
+ValidLeaf == {"s.host", "s.guard", "s.svc", "s.svc.id"}
+ValidInit == {Empty, [l \in {"s.host"} |-> "s:abc"]}
 \* generation (simulation) universes: wider than the exhaustive ones
 GenPrioOf == [o \in {"A", "B", "C"} |-> CASE o = "A" -> {5, 10} [] o = "B" -> {7, 12} [] o = "C" -> {8}]
 GenCoreLeaf == Fam_core
@@ -29,4 +32,7 @@ GenChoiceInit == {Empty, [l \in {"c.z", "pl.s"} |-> "s:b"]}
 \* lifecycle family: small data universe, all Set outcomes, both timeout classes
 GenLifeLeaf == {"pl.a", "pl.ab", "i1.name", "i1.val"}
 GenLifeInit == {Empty, [l \in {"pl.s"} |-> "s:b"]}
+GenValidLeaf == Fam_valid
+GenValidInit == {Empty, [l \in {"s.host", "pl.n"} |-> IF l = "s.host" THEN "s:abc" ELSE "u:1"],
+                 [l \in {"i2.name", "s.hostname"} |-> IF l = "i2.name" THEN "key" ELSE "s:a"]}
 =============================================================================
